@@ -192,7 +192,7 @@ def _run_value(case):
             "sample": {"config": tags, "accepted_steps": N, "scale_last": scale[-1], "mle_dev_x_tol": obs.get("max_mle_scale_dev_x_tol")}}
 
 
-def _compare_runs(a, b, c, cal, d, n, tol, tags, viols, obs, what, times, base):
+def _compare_runs(a, b, c, cal, d, n, tol, tags, viols, obs, what, times, base, check_scale=True):
     """a: base run, b: run with base x c. Each: (means [T,N], covs [T,N,N], scales [T,(d)])."""
     ma, Pa, sa = a
     mb, Pb, sb = b
@@ -210,6 +210,8 @@ def _compare_runs(a, b, c, cal, d, n, tol, tags, viols, obs, what, times, base):
         if not (em <= tol and ec <= tol):
             viols.append(util.viol("scale_equivariance_values", f"{what}: base scale x {c:g}: means/{'std/c' if cal == 'solver' else 'calibrated cov'} differ by {em:.3g}/{ec:.3g} at index {i}", tags=tags))
             return
+    if not check_scale:
+        return
     if cal == "solver":
         if not (np.all(sa == 1.0) and np.all(sb == 1.0)):
             viols.append(util.viol("scale_equivariance_scale", f"{what}: uncalibrated scale not one", tags=tags))
@@ -238,6 +240,23 @@ def _compare_with_measured_conditioning(e1, e2, c, cal, d, n, tol, tags, viols, 
             obs["max_measured_sensitivity"] = max(obs.get("max_measured_sensitivity", 0.0), sens)
             tol = tol + 20.0 * sens
     _compare_runs(e1, e2, c, cal, d, n, tol, tags, viols, obs, what, times, base)
+
+
+def _extract_filtering(sol, T):
+    """The filtering marginals that smoothing solutions carry next to the smoothed ones (used by off-grid evaluation):
+    they are returned covariances too and must be calibrated and scale-equivariant like ``sol.u`` (seed C04-s3)."""
+    full = sol.solution_full
+    if not hasattr(full, "filtering"):
+        return None
+    ms, Ps = [], []
+    for i in range(T):
+        m, P = extract.normal_dense(extract.tree_index(full.filtering, i))
+        ms.append(m)
+        Ps.append(P)
+    sc = np.asarray(sol.output_scale, float)
+    if sc.shape[0] == T - 1:
+        sc = np.concatenate([sc[:1], sc])
+    return ms, Ps, sc
 
 
 def _extract(sol, T):
@@ -276,6 +295,22 @@ def _run_equiv(case):
 
         cmp = _compare_runs if case["dyadic"] else (lambda *a: _compare_with_measured_conditioning(*a, rerun_fixed))
         cmp(_extract(s1, len(grid)), _extract(s2, len(grid)), c, cal, d, n, tol, tags, viols, obs, "fixed_grid", grid, case["base"])
+        f1, f2 = _extract_filtering(s1, len(grid)), _extract_filtering(s2, len(grid))
+        if f1 is not None and not viols:
+            _compare_runs(f1, f2, c, cal, d, n, 1e-12 if case["dyadic"] else 1e-6, {**tags, "output": "filtering"}, viols, obs, "fixed_grid_filtering", grid, case["base"])
+            obs["filtering_outputs_compared"] = 1
+            if case["strategy"] == "fixedinterval" and case["dyadic"]:
+                # dense output between the grid points
+                mids = [float(0.3 * a + 0.7 * b) for a, b in zip(grid[:-1], grid[1:])][:3]
+                o1 = [extract.normal_dense(cfg1["solver"].offgrid_marginals(jnp.asarray(t), solution=s1)) for t in mids]
+                o2 = [extract.normal_dense(cfg2["solver"].offgrid_marginals(jnp.asarray(t), solution=s2)) for t in mids]
+                sc1 = np.asarray(s1.output_scale, float)
+                i1, i2 = extract.normal_dense(extract.tree_index(s1.u, 0)), extract.normal_dense(extract.tree_index(s2.u, 0))
+                og1 = ([i1[0]] + [m for m, _ in o1], [i1[1]] + [P for _, P in o1], sc1[: len(mids) + 1])
+                og2 = ([i2[0]] + [m for m, _ in o2], [i2[1]] + [P for _, P in o2], np.asarray(s2.output_scale, float)[: len(mids) + 1])
+                _compare_runs(og1, og2, c, "solver" if cal == "solver" else "offgrid", d, n, 1e-10, {**tags, "output": "offgrid"}, viols, obs,
+                              "fixed_grid_offgrid", [grid[0]] + mids, case["base"], check_scale=False)
+                obs["offgrid_outputs_compared"] = 1
         obs["equivariance_pairs"] = 1
         sigs = ["|".join(str(case[k]) for k in ("kind", "fact", "cal", "ts", "strategy", "nu", "dyadic"))]
     else:
